@@ -241,6 +241,9 @@ type ServerOpts struct {
 	DataPad  int
 	// separate: send the seed frame in its own write
 	SeparateSeed bool
+	// Tail, when set, returns raw bytes appended to the same write as the
+	// response (+ seed frame + WithData); it may use the session's Tx key
+	Tail func(s *RefSession) []byte
 	// Mutate, when set, may alter the response blob (before the seed frame)
 	Mutate func(resp []byte) []byte
 	// ForgeAuth replaces AUTH (impostor)
@@ -306,6 +309,9 @@ func RefServer(conn net.Conn, idn *ref.Identity, o ServerOpts, r io.Reader) (*Re
 	}
 	if o.WithData != nil {
 		out = append(out, s.framesFor(o.WithData, o.DataPad, int64(len(out)))...)
+	}
+	if o.Tail != nil {
+		out = append(out, o.Tail(s)...)
 	}
 	if err := s.write(out); err != nil {
 		return nil, err
